@@ -1,7 +1,7 @@
 """C20 Bundled string helpers compute the Color BASIC function they stand for.
 
 The procedure text of the live ecb.b09 is executed by the BASIC09 reference interpreter:
-ecb_instr on all (start 1..6, subject over {A,B} of length <= 4, pattern of length <= 3),
+ecb_instr on all (start 1..8, subject over {A,B,C} of length <= 5 (6 in the thorough tier), pattern of length <= 3),
 result variable pre-set to 0 and to 99, plus subjects of 31..41 characters at string size 80; ecb_string on counts 0..255 x strings; the read
 filter on "" and on every numeric spelling the DATA path produces.  Expected values come
 from the Color BASIC model.  Where real BASIC09 behaviour is not certain (string slices
@@ -116,11 +116,11 @@ def work(chunk):
 def gen(run):
     quick = run.tier == "quick"
     cases = []
-    alpha = "AB" if quick else "ABC"
-    maxs = 4 if quick else 5
+    alpha = "ABC"
+    maxs = 5 if quick else 6
     subjects = [""] + ["".join(p) for n in range(1, maxs + 1) for p in itertools.product(alpha, repeat=n)]
     patterns = ["".join(p) for n in range(0, 4) for p in itertools.product(alpha, repeat=n)]
-    for d in core.cube(run, [("start", range(1, 7 if quick else 9)), ("subj", subjects), ("pat", patterns), ("preset", [0, 99])]):
+    for d in core.cube(run, [("start", range(1, 9 if quick else 10)), ("subj", subjects), ("pat", patterns), ("preset", [0, 99])]):
         cases.append(("instr", (d["start"], d["subj"], d["pat"], d["preset"])))
     # subjects longer than BASIC09's default 32 bytes (requested string size 80): one B at every column 28..41 of a run of A's
     for d in core.cube(run, [("len", [31, 32, 33, 34, 40, 41]), ("col", range(28, 42)), ("pat", ["B", "AB", "BA", "ABA", "BB"]), ("start", [1, 2, 31, 32, 33, 34, 36])]):
